@@ -211,14 +211,13 @@ Proof.
 Qed.
 
 Lemma cells_ok_of_spec : forall m offset scale,
-  0 < scale -> stage_a_spec m offset scale -> cells_ok offset scale m.
+  stage_a_spec m offset scale -> cells_ok offset scale m.
 Proof.
-  intros m offset scale Hsc Hs row c Hrow Hc. destruct c as [x|].
+  intros m offset scale Hs row c Hrow Hc. destruct c as [x|].
   - destruct (disc_cell_fin m offset scale x Hs (in_finite_cells _ _ _ Hrow Hc)) as [Hk He]. cbv zeta in *.
     unfold disc. apply Qabs_Qle_condition in He. destruct He as [He1 He2].
     split; [unfold i32_min; lia|]. split; lra.
-  - unfold disc. cbn [disc_cell]. destruct Hs as (_ & _ & H0 & _). rewrite disc_ninf_Q by exact H0.
-    destruct (Qle_bool scale 0) eqn:E; [apply Qle_bool_true in E; lra|reflexivity].
+  - unfold disc. cbn [disc_cell]. destruct Hs as (_ & H0 & _). apply disc_ninf_Q. exact H0.
 Qed.
 
 Lemma dmass_row_mass : forall offset scale bg row,
@@ -255,13 +254,8 @@ Qed.
 (* what d_scale computes *)
 Lemma d_scale_Q_value : forall d s r,
   d_scale QOps d s = Ok r ->
-  in_i32 (d_rows d * d_offset d) = true /\
-  r = clamp_i32 (Qround_away ((s - inject_Z (d_rows d * d_offset d)) * d_scale_f d)).
-Proof.
-  intros d s r H. unfold d_scale, d_wo in H.
-  destruct (in_i32 (d_rows d * d_offset d)) eqn:E; cbn [rbind] in H; [|discriminate].
-  inversion H; subst. split; reflexivity.
-Qed.
+  r = clamp_i32 (Qround_away ((s - inject_Z (d_rows d) * d_offset d) * d_scale_f d)).
+Proof. intros d s r H. unfold d_scale in H. inversion H; subst. reflexivity. Qed.
 
 Lemma as_usize_nonneg : forall r, (0 <= r)%Z -> as_usize r = r.
 Proof. intros r H. unfold as_usize. destruct (r <? 0)%Z eqn:E; [apply Z.ltb_lt in E; lia|reflexivity]. Qed.
@@ -269,42 +263,37 @@ Proof. intros r H. unfold as_usize. destruct (r <? 0)%Z eqn:E; [apply Z.ltb_lt i
 Opaque cdf_range.
 
 Theorem pvalue_brackets_exact_Q : forall m bg d offset scale s p,
-  bg_nonneg bg -> Qsum bg <= 1 -> Forall (fun row => row_mass bg row == 1) m ->
-  build QOps m bg = Ok d -> stage_a QOps m = Ok (offset, scale) -> 0 < scale ->
-  in_i32 (Qfloor offset) = true -> (Z.of_nat (length m) * 1000 < i32_max)%Z ->
+  bg_nonneg bg -> Qsum bg <= 1 ->
+  build QOps m bg = Ok d -> stage_a QOps m = Ok (offset, scale) ->
+  (Z.of_nat (length m) * 1000 < i32_max)%Z ->
   d_pvalue QOps d s = Ok p ->
   let dd := (inject_Z (Z.of_nat (length m)) / 2 + 1) / scale in
   tail_exact m bg (s + dd) <= p /\ p <= tail_exact m bg (s - dd).
 Proof.
-  intros m bg d offset scale s p Hbg Hm Hmass Hb Ha Hsc Hoff Hlen Hp dd.
-  destruct (build_Q_table m bg d Hbg Hm Hb) as (Hlsf & Hsf & Hok & Hld & Hmin0 & Hminz).
+  intros m bg d offset scale s p Hbg Hm Hb Ha Hlen Hp dd.
+  destruct (build_Q_table m bg d Hbg Hm Hb) as (Hlsf & Hsf & Hok & Hld & [Hmin0 Hminle] & Hminz).
+  pose proof (sf_nonempty m bg d Hbg Hb) as Hne.
   apply build_Q_inv in Hb.
   destruct Hb as (offset' & scale' & pdf & Ha' & _ & Hdata & _ & _ & Hscf & Hdoff & Hrows).
   assert (offset' = offset /\ scale' = scale) as [Eo Es] by (rewrite Ha in Ha'; inversion Ha'; auto).
   rewrite Eo, Es in *. clear Eo Es Ha' offset' scale'.
   pose proof (stage_a_Q m offset scale Ha) as Hspec.
-  pose proof (cells_ok_of_spec m offset scale Hsc Hspec) as Hcells.
-  destruct Hspec as ((zo & Ezo) & _).
+  pose proof (cells_ok_of_spec m offset scale Hspec) as Hcells.
+  assert (0 < scale) as Hsc by (destruct Hspec as (_ & H0 & _); exact H0).
   pose proof (tails_coupled offset scale Hsc bg m Hbg Hcells) as [Hanti Hlo Hhi].
   assert (map (map (disc offset scale)) m = d_data d) as Edata by (rewrite Hdata; reflexivity).
   rewrite Edata in Hlo, Hhi.
   pose proof (tailD_facts bg (d_data d) Hbg Hok) as [HTanti HTnn HTlow HThigh]. rewrite Hld in HThigh.
-  assert (forall k, tailD (d_data d) bg k <= 1) as HT1 by (intros k; apply tailD_le1; assumption).
   (* the scaled score *)
-  rewrite (d_pvalue_idx QOps) in Hp. apply rbind_ok in Hp. destruct Hp as (r & Hr & Ep). inversion Ep; subst p. clear Ep.
-  apply d_scale_Q_value in Hr. destruct Hr as [Hwo Er].
-  assert (d_offset d = zo) as Edo.
-  { rewrite Hdoff, Ezo, Qtrunc_inject_Z. rewrite Ezo, Qfloor_Z in Hoff. apply clamp_i32_id.
-    unfold in_i32 in Hoff. apply andb_true_iff in Hoff. destruct Hoff as [H1 H2].
-    apply Z.leb_le in H1, H2. lia. }
+  rewrite (d_pvalue_idx QOps) in Hp by exact Hne.
+  apply rbind_ok in Hp. destruct Hp as (r & Hr & Ep). inversion Ep; subst p. clear Ep.
+  apply d_scale_Q_value in Hr. rename Hr into Er.
   set (Mq := inject_Z (Z.of_nat (length m))) in *.
-  assert (inject_Z (d_rows d * d_offset d) == Mq * offset) as Ewo.
-  { rewrite Hrows, Edo, inject_Z_mult, Ezo. reflexivity. }
   set (y := (s - Mq * offset) * scale).
-  assert ((s - inject_Z (d_rows d * d_offset d)) * d_scale_f d == y) as Ey.
-  { unfold y. rewrite Ewo, Hscf. reflexivity. }
-  set (r0 := Qround_away ((s - inject_Z (d_rows d * d_offset d)) * d_scale_f d)) in *.
-  destruct (Qround_away_err ((s - inject_Z (d_rows d * d_offset d)) * d_scale_f d)) as [Hr1 Hr2].
+  assert ((s - inject_Z (d_rows d) * d_offset d) * d_scale_f d == y) as Ey.
+  { unfold y, Mq. rewrite Hrows, Hdoff, Hscf. reflexivity. }
+  set (r0 := Qround_away ((s - inject_Z (d_rows d) * d_offset d) * d_scale_f d)) in *.
+  destruct (Qround_away_err ((s - inject_Z (d_rows d) * d_offset d) * d_scale_f d)) as [Hr1 Hr2].
   fold r0 in Hr1, Hr2. rewrite Ey in Hr1, Hr2.
   assert (~ scale == 0) as Hnz by lra.
   assert (s + dd == (y + Mq * (1 # 2) + 1) / scale + Mq * offset) as Esp by (unfold dd, y; field; exact Hnz).
@@ -317,32 +306,26 @@ Proof.
     apply Qplus_le_l. apply Qdiv_le_compat; [exact Hsc|]. lra. }
   assert (Z.of_nat (length (d_sf d)) = Z.of_nat (length m) * 1000 + 1)%Z as Hlz.
   { rewrite Hlsf. rewrite Nat2Z.inj_add, Nat2Z.inj_mul, cdf_range_Z. reflexivity. }
-  assert (d_min d <= Z.of_nat (length m) * 1000)%Z as Hminle.
-  { (* min_score is an index of the table *)
-    destruct (Z.le_gt_cases (d_min d) (Z.of_nat (length m) * 1000)) as [H|H]; [exact H|exfalso].
-    assert (tailD (d_data d) bg (Z.of_nat (length m) * 1000 + 1) == tailD (d_data d) bg 0) as Eflat.
-    { replace (Z.of_nat (length m) * 1000 + 1)%Z with (Z.of_nat (length m * cdf_range + 1)) by (rewrite Nat2Z.inj_add, Nat2Z.inj_mul, cdf_range_Z; reflexivity).
-      apply tail_flat. intros j Hj. apply Hminz. rewrite Nat2Z.inj_lt in Hj.
-      rewrite Nat2Z.inj_add, Nat2Z.inj_mul, cdf_range_Z in Hj. lia. }
-    rewrite HThigh in Eflat by (rewrite Nat2Z.inj_mul, cdf_range_Z; lia).
-    rewrite (HTlow 0%Z) in Eflat by lia.
-    rewrite <- Edata, (dmass_all_one offset scale bg m Hcells Hmass) in Eflat. lra. }
+  assert (0 < length (d_sf d))%nat as Hlen0 by (destruct (d_sf d); [contradiction|cbn; lia]).
   unfold pv_idx. cbn [n_one n_zero QOps].
   destruct (r <? d_min d)%Z eqn:E1.
-  - (* below the minimum: 1.0 *)
+  - (* below the minimum: sf[0] = P(D >= 0) = P(D >= r + 1) *)
     apply Z.ltb_lt in E1.
-    assert (r0 <= r)%Z as Hr0.
-    { rewrite Er. unfold clamp_i32, i32_min, i32_max in *. lia. }
+    assert (nth 0 (d_sf d) 0 == tailD (d_data d) bg 0) as E0 by (apply (Hsf 0%nat Hlen0)).
+    rewrite E0.
+    assert (tailD (d_data d) bg (Z.max 0 (r + 1)) == tailD (d_data d) bg 0) as Eflat.
+    { destruct (Z.lt_ge_cases r 0) as [Hneg|Hpos].
+      - replace (Z.max 0 (r + 1)) with 0%Z by lia. reflexivity.
+      - replace (Z.max 0 (r + 1)) with (Z.of_nat (Z.to_nat (r + 1))) by lia.
+        apply tail_flat. intros j Hj. apply Hminz. lia. }
     split.
-    + eapply Qle_trans; [apply (Hlow r0); lra|apply HT1].
-    + assert (tailD (d_data d) bg (r + 1) == 1) as E.
-      { destruct (Z.lt_ge_cases r 0) as [Hneg|Hpos].
-        - rewrite HTlow by lia. rewrite <- Edata. apply (dmass_all_one offset scale bg m Hcells Hmass).
-        - replace (r + 1)%Z with (Z.of_nat (Z.to_nat (r + 1))) by lia.
-          rewrite tail_flat; [rewrite (HTlow 0%Z) by lia; rewrite <- Edata; apply (dmass_all_one offset scale bg m Hcells Hmass)|].
-          intros j Hj. apply Hminz. lia. }
-      rewrite <- E. apply Hupp. rewrite inject_Z_plus. change (inject_Z 1) with 1.
-      assert (inject_Z r0 <= inject_Z r) by (rewrite <- Zle_Qle; exact Hr0). lra.
+    + destruct (Z.lt_ge_cases r0 0) as [Hneg|Hpos].
+      * eapply Qle_trans; [apply (Hlow r0); lra|]. rewrite (HTlow r0) by lia. rewrite (HTlow 0%Z) by lia. apply Qle_refl.
+      * eapply Qle_trans; [apply (Hlow r0); lra|]. apply HTanti. exact Hpos.
+    + rewrite <- Eflat. apply Hupp.
+      assert (r0 <= r)%Z as Hr0.
+      { rewrite Er. unfold clamp_i32, i32_min, i32_max in *. lia. }
+      assert (inject_Z r0 <= inject_Z (Z.max 0 (r + 1))) by (rewrite <- Zle_Qle; lia). lra.
   - apply Z.ltb_ge in E1. rewrite as_usize_nonneg by lia.
     destruct (Z.of_nat (length (d_sf d)) <=? r)%Z eqn:E2.
     + (* above the table: 0.0 *)
@@ -430,24 +413,17 @@ Proof.
   - rewrite inject_Z_plus. change (inject_Z 1) with 1. lra.
 Qed.
 
-Theorem score_pvalue_roundtrip_Q : forall m bg d offset scale p s q,
-  bg_nonneg bg -> Qsum bg <= 1 -> Forall (fun row => row_mass bg row == 1) m ->
-  build QOps m bg = Ok d -> stage_a QOps m = Ok (offset, scale) -> 0 < scale ->
+Theorem score_pvalue_roundtrip_Q : forall m bg d p s q,
+  bg_nonneg bg -> Qsum bg <= 1 -> build QOps m bg = Ok d ->
   (Z.of_nat (length m) * 1000 < i32_max)%Z ->
   0 < p -> p < 1 ->
   d_score QOps d p = Ok s -> d_pvalue QOps d s = Ok q -> q <= p.
 Proof.
-  intros m bg d offset scale p s q Hbg Hm Hmass Hb Ha Hsc Hlen Hp0 Hp1 Hs Hq.
-  destruct (sf_monotone_range_Q m bg d Hbg Hm Hb) as (Hlsf & Hnoninc & Hin01).
-  destruct (build_Q_table m bg d Hbg Hm Hb) as (_ & Hsf & Hok & Hld & Hmin0 & Hminz).
-  apply build_Q_inv in Hb.
-  destruct Hb as (offset' & scale' & pdf & Ha' & _ & Hdata & _ & _ & Hscf & _ & _).
-  assert (offset' = offset /\ scale' = scale) as [Eo Es] by (rewrite Ha in Ha'; inversion Ha'; auto).
-  rewrite Eo, Es in *. clear Eo Es Ha' offset' scale'.
-  pose proof (stage_a_Q m offset scale Ha) as Hspec.
-  pose proof (cells_ok_of_spec m offset scale Hsc Hspec) as Hcells.
-  assert (map (map (disc offset scale)) m = d_data d) as Edata by (rewrite Hdata; reflexivity).
-  pose proof (tailD_facts bg (d_data d) Hbg Hok) as [_ _ HTlow _].
+  intros m bg d p s q Hbg Hm Hb Hlen Hp0 Hp1 Hs Hq.
+  destruct (sf_monotone_range_Q m bg d Hbg Hb) as (Hlsf & Hnoninc & Hin01 & _).
+  destruct (build_Q_table m bg d Hbg Hm Hb) as (_ & Hsf & Hok & Hld & [Hmin0 Hminle] & Hminz).
+  pose proof (sf_nonempty m bg d Hbg Hb) as Hne.
+  pose proof (build_Q_scale_pos m bg d Hb) as Hsc.
   assert (Z.of_nat (length (d_sf d)) = Z.of_nat (length m) * 1000 + 1)%Z as Hlz.
   { rewrite Hlsf. rewrite Nat2Z.inj_add, Nat2Z.inj_mul, cdf_range_Z. reflexivity. }
   (* score(p) = unscale(x), x from the binary search *)
@@ -464,38 +440,25 @@ Proof.
     exact (noninc_nth QOps Qle (fun a b c => @Qle_trans a b c) (d_sf d) i j 0
              (fun a _ => Qle_refl a) Hnoninc Hf' Hij). }
   destruct (bsearch_spec (d_sf d) p Hmono x Hx) as [Hxl Hxp].
-  unfold d_unscale in Hs. apply rbind_ok in Hs. destruct Hs as (wo & Hwo & Hs). inversion Hs; subst s. clear Hs.
-  cbn [n_unscale QOps] in Hq.
+  unfold d_unscale in Hs. inversion Hs; subst s. clear Hs. cbn [n_unscale QOps] in Hq.
   (* pvalue of that score: the scaled score is x again *)
-  rewrite (d_pvalue_idx QOps) in Hq. apply rbind_ok in Hq. destruct Hq as (r & Hr & Eq). inversion Eq; subst q. clear Eq.
-  unfold d_scale in Hr. rewrite Hwo in Hr. cbn [rbind] in Hr.
-  assert (r = clamp_i32 (Qround_away ((inject_Z (Z.of_nat x) / d_scale_f d + inject_Z wo - inject_Z wo) * d_scale_f d))) as Er
-    by (inversion Hr; reflexivity).
-  clear Hr.
-  assert (~ d_scale_f d == 0) as Hnz by (rewrite Hscf; lra).
-  assert ((inject_Z (Z.of_nat x) / d_scale_f d + inject_Z wo - inject_Z wo) * d_scale_f d == inject_Z (Z.of_nat x)) as Ex
-    by (field; exact Hnz).
-  rewrite (Qround_away_comp _ _ Ex), Qround_away_nat in Er.
-  rewrite clamp_i32_id in Er by (unfold i32_min, i32_max in *; lia). subst r.
+  rewrite (d_pvalue_idx QOps) in Hq by exact Hne.
+  apply rbind_ok in Hq. destruct Hq as (r & Hr & Eq). inversion Eq; subst q. clear Eq.
+  apply d_scale_Q_value in Hr. unfold d_wo in Hr. cbn [n_mul n_of_Z QOps] in Hr.
+  assert (~ d_scale_f d == 0) as Hnz by lra.
+  assert ((inject_Z (Z.of_nat x) / d_scale_f d + inject_Z (d_rows d) * d_offset d - inject_Z (d_rows d) * d_offset d) * d_scale_f d
+          == inject_Z (Z.of_nat x)) as Ex by (field; exact Hnz).
+  rewrite (Qround_away_comp _ _ Ex), Qround_away_nat in Hr.
+  rewrite clamp_i32_id in Hr by (unfold i32_min, i32_max in *; lia). subst r.
+  assert (0 < length (d_sf d))%nat as Hlen0 by (destruct (d_sf d); [contradiction|cbn; lia]).
   unfold pv_idx. cbn [n_one n_zero QOps].
   destruct (Z.of_nat x <? d_min d)%Z eqn:E1.
-  - (* impossible: below min_score the table holds the total mass 1 > p *)
-    exfalso. apply Z.ltb_lt in E1.
-    assert (d_min d <= Z.of_nat (length m) * 1000)%Z as Hminle.
-    { destruct (Z.le_gt_cases (d_min d) (Z.of_nat (length m) * 1000)) as [H|H]; [exact H|exfalso].
-      pose proof (tailD_facts bg (d_data d) Hbg Hok) as [_ _ _ HThigh]. rewrite Hld in HThigh.
-      assert (tailD (d_data d) bg (Z.of_nat (length m) * 1000 + 1) == tailD (d_data d) bg 0) as Eflat.
-      { replace (Z.of_nat (length m) * 1000 + 1)%Z with (Z.of_nat (length m * cdf_range + 1)) by (rewrite Nat2Z.inj_add, Nat2Z.inj_mul, cdf_range_Z; reflexivity).
-        apply tail_flat. intros j Hj. apply Hminz. rewrite Nat2Z.inj_lt in Hj.
-        rewrite Nat2Z.inj_add, Nat2Z.inj_mul, cdf_range_Z in Hj. lia. }
-      rewrite HThigh in Eflat by (rewrite Nat2Z.inj_mul, cdf_range_Z; lia).
-      rewrite (HTlow 0%Z) in Eflat by lia.
-      rewrite <- Edata, (dmass_all_one offset scale bg m Hcells Hmass) in Eflat. lra. }
+  - (* below min_score the table is flat: sf[0] = sf[x] <= p *)
+    apply Z.ltb_lt in E1.
     assert (x < length (d_sf d))%nat as Hxlt by lia.
     specialize (Hxp Hxlt). rewrite (Hsf x Hxlt) in Hxp.
     rewrite tail_flat in Hxp by (intros j Hj; apply Hminz; lia).
-    rewrite (HTlow 0%Z) in Hxp by lia.
-    rewrite <- Edata, (dmass_all_one offset scale bg m Hcells Hmass) in Hxp. lra.
+    rewrite (Hsf 0%nat Hlen0). exact Hxp.
   - apply Z.ltb_ge in E1. rewrite as_usize_nonneg by lia.
     destruct (Z.of_nat (length (d_sf d)) <=? Z.of_nat x)%Z eqn:E2; [lra|].
     apply Z.leb_gt in E2. rewrite Nat2Z.id. apply Hxp. lia.
